@@ -171,6 +171,14 @@ def search(res, tier, seed, deep=False):
                 if not np.allclose(np.asarray(dd["Obs"].values[0], dtype=float), want_obs) or not np.allclose(np.asarray(dd["Bias"].values[0], dtype=float), want_cm - want_obs):
                     report("days-per-year:%d" % ny, inp, dict(got=np.asarray(dd["Obs"].values[0], dtype=float).reshape(-1)[:3].tolist(), want=want_obs.reshape(-1)[:3].tolist()),
                            "mean days per year beyond the threshold wrong (must not depend on the number of years)")
+                # a record with whole years missing (2001 and 2003, say): the mean is over the years present
+                if ny >= 2:
+                    gap_t = np.concatenate([times(365, "2001-01-01")] + [times(365, "%d-01-01" % (2001 + 2 * k)) for k in range(1, ny)])
+                    ddg = E.marginal.calculate_bias_days_metrics(obs_data=[obs, gap_t], metrics=[m], cm=[raw_v, gap_t])
+                    res.case(("days-years-with-gaps", ny))
+                    if not np.allclose(np.asarray(ddg["Obs"].values[0], dtype=float), want_obs) or not np.allclose(np.asarray(ddg["Bias"].values[0], dtype=float), want_cm - want_obs):
+                        report("days-per-year:years-with-gaps", dict(inp, years=[2001 + 2 * k for k in range(ny)]), dict(got=np.asarray(ddg["Obs"].values[0], dtype=float).reshape(-1)[:3].tolist(), want=want_obs.reshape(-1)[:3].tolist()),
+                               "mean days per year beyond the threshold: the mean is over the years present in the record, not over the span between the first and last year")
                 # several metrics in one call, two of them without a name (both "unknown"): one row per metric,
                 # each with its own observational value
                 ms = [ThresholdMetric(threshold_value=9.0, threshold_type="higher"), ThresholdMetric(threshold_value=13.0, threshold_type="higher"), m]
@@ -226,6 +234,15 @@ def search(res, tier, seed, deep=False):
                     if not np.allclose(bias_of(dft, "Mean"), tr(bc_f.mean(0), bc_v.mean(0))) or not np.allclose(bias_of(dft, "0.9 qn"), tr(np.quantile(bc_f, 0.9, 0), np.quantile(bc_v, 0.9, 0))) \
                        or not np.allclose(bias_of(dft, "warm"), tr((bc_f > 12).mean(0), (bc_v > 12).mean(0))):
                         report("trend:" + tt_, inp, None, "calculate_future_trend does not return the documented trend")
+                    # the statistics in another order ("mean" not first, several quantiles): every row holds its own statistic
+                    stats = r.choice([[0.1, 0.9, "mean"], [0.25, "mean", 0.75], [0.9, 0.1]])
+                    dfo = E.trend.calculate_future_trend(statistics=stats, trend_type=tt_, metrics=[], time_validate=t, time_future=tf, bc=[bc_v, bc_f])
+                    res.case(("trend-statistics-order", tt_, str(stats)))
+                    for st_ in stats:
+                        lab = "Mean" if st_ == "mean" else "%s qn" % st_
+                        fn = (lambda a: a.mean(0)) if st_ == "mean" else (lambda a, q=st_: np.quantile(a, q, 0))
+                        if not np.allclose(bias_of(dfo, lab), tr(fn(bc_f), fn(bc_v))):
+                            report("trend-statistics-order:" + tt_, dict(inp, statistics=[str(x) for x in stats], row=lab), None, "calculate_future_trend: a row does not hold the trend of its own statistic when the statistics are given in another order"); break
                 # conditional joint exceedance
                 m2 = ThresholdMetric(threshold_value=11.0, threshold_type="higher", name="m2")
                 chi = MV._calculate_chi(m, m2, obs.copy(), raw_v.copy())
@@ -235,6 +252,12 @@ def search(res, tier, seed, deep=False):
                     report("chi", inp, None, "conditional exceedance is not P(m1 and m2)/P(m2)")
                 if not np.allclose(MV._calculate_chi(m, m, obs.copy(), obs.copy()), 1.0):
                     report("chi-self", inp, None, "a metric conditioned on itself must have probability 1")
+                # ... also when it is the very same metric object and the very same array, twice in a row, and the array is left alone
+                keep = obs.copy()
+                c1 = MV._calculate_chi(m, m, obs, obs); c2 = MV._calculate_chi(m, m, obs, obs)
+                res.case(("chi-same-objects", X * Y > 1))
+                if not (np.allclose(c1, 1.0) and np.allclose(c2, 1.0) and np.array_equal(obs, keep)):
+                    report("chi-self:same-objects", inp, [float(np.min(c1)), float(np.min(c2)), bool(np.array_equal(obs, keep))], "a metric conditioned on itself (same metric object, same array object) must have probability 1 and leave the data unchanged")
             except Exception as e:
                 report("exception:%s:%s" % (type(e).__name__, str(e)[:40]), inp, repr(e)[:300], "an evaluation function raised on well-formed datasets")
 
